@@ -519,10 +519,35 @@ GUARDS = [  # (class, ctor positional args, kwargs, predicate builder, descripti
 ]
 
 
+def rule_planar_slope_guard(prog, rep):
+    """The leaky-relu planar layer is a bijection only for a positive slope (1 + s w.u^ > 0 uses s > 0): the
+    constructor rejects negative_slope <= 0 with a Python-level raise (the slope is a static float)."""
+    from .c13 import guard_list
+    c = prog.cls("flowjax.bijections.planar._UnconditionalPlanar")
+    r = prog.find_method(c, "__init__")
+    it = Interp(prog)
+    args = [("sym", a.arg.upper()) for a in r[1].args.args[1:]]
+    kwargs = {a.arg: ("sym", a.arg.upper()) for a in r[1].args.kwonlyargs}
+    it.eval_init(c, args, kwargs)
+    NS = ("sym", "NEGATIVE_SLOPE")
+    want = ("cmp", "<=", NS, C(0))
+    gl = guard_list(it)
+    ok = any(equal(g[0], want) and len(g[2]) == 1 and equal(g[2][0], ("cmp", "is not", NS, C(None))) for g in gl)
+    rep.check(ok, "C11.guard", method_site(prog, c, "__init__"), "_UnconditionalPlanar:rejects(negative_slope <= 0)",
+              "raises when a slope is given and negative_slope <= 0 (boundary included)",
+              f"no guard raising on {show(want)} under `negative_slope is not None`; guards: "
+              f"{[(show(g[0], 60), [show(p, 40) for p in g[2]]) for g in gl][:3]}")
+
+
 def rule_guard(prog, rep):
+    rule_guard_error_if(prog, rep)
+    rule_planar_slope_guard(prog, rep)
+
+
+def rule_guard_error_if(prog, rep):
     rep.rule("C11.guard", "each documented rejection exists as eqx.error_if with a boundary-inclusive predicate and "
                           "its result is consumed (flows into the stored fields; an unused error_if result is dead "
-                          "code under jit)", minimum=8)
+                          "code under jit); the planar layer rejects a non-positive leaky-relu slope", minimum=9)
     for q, argn, kw, predf, desc in GUARDS:
         c = prog.cls(q)
         it = Interp(prog, no_inline={"flowjax.utils.arraylike_to_array"})
